@@ -21,6 +21,8 @@ import CtyModel.Lemmas.d18Cval
 import CtyModel.Lemmas.d18ToCty
 import CtyModel.Generated.IntBounds
 import CtyModel.Lemmas.GoctyFnsTie
+import CtyModel.Lemmas.d18bShape
+import CtyModel.Lemmas.d18bShapeTie
 namespace CtyModel
 namespace C18
 open Gocty
@@ -852,6 +854,136 @@ example : Generated.GoctyFns.fromCtyNumber ⟨.number, .n (Num.ofInt 128)⟩ (.i
 example : Generated.GoctyFns.fromCtyNumber ⟨.number, .n (Num.mk false 3 (-1) 64)⟩ (.int .w64 false) (.int 0) =
     .err "value must be a whole number, between 0 and %d inclusive" := by rfl
 example (tv : GoVal) : ∃ c, Generated.GoctyFns.fromCtyNumber ⟨.number, .n (Num.ofInt 1)⟩ (.slice .str) tv = .err c := ⟨_, rfl⟩
+
+/-! ## Second deepening (slice d18b)
+
+Three predicates of the harness that caught seeded changes now have statements (on the hand-written model diffed
+against /repo), and the SHAPE CHECKS of the collection decoders are regenerated from the source:
+`Generated.GoctyShapeFns.fromCtyList / fromCtySet / fromCtyMap / fromCtyTuple` are the translated text of cty/gocty/out.go
+(kind dispatch, null guards, `length != target.Len()`, the tuple's field count and positional loop); the recursive call is a
+parameter (`D18bTie.recS S` = the model itself), and the five `ForEachElement` closures are pinned regions (text compared
+on every run).  `fromCtyValue`, `fromCtyPopulatePtr`, `fromCtyObject` stay tied by the theorems above on the hand-written
+model only. -/
+
+/-- "shape mismatches … return an error", arrays, for EVERY length: a list or a set is decoded into a Go array `[n]E`
+(behind any pointers) only if it has exactly `n` members, and every other length is refused with an error whatever the
+members are (the predicate that caught seeded/C18-array-decode-empty-collection-early-return). -/
+theorem array_length_rule (S : Sched) (ety : Ty) (ids : List Int) (cs : List Payload) (T : GoTy) (n : Nat) (E : GoTy)
+    (hT : T.base = .array n E) :
+    (∀ g, fromCtyS S ⟨.list ety, .seq cs⟩ T = .ok g → cs.length = n) ∧
+    (∀ g, fromCtyS S ⟨.set ety, .sset ids cs⟩ T = .ok g → cs.length = n) ∧
+    (cs.length ≠ n → (∃ c, fromCtyS S ⟨.list ety, .seq cs⟩ T = .err c) ∧ (∃ c, fromCtyS S ⟨.set ety, .sset ids cs⟩ T = .err c)) :=
+  ⟨fun g h => ((fromCtyP_list_array_ok_iff S ety cs T n E hT g).mp h).1,
+   fun g h => fromCtyP_set_array_ok_len S ety ids cs T n E hT g h,
+   fun hl => ⟨fromCtyP_list_array_len_err S ety cs T n E hT hl, fromCtyP_set_array_len_err S ety ids cs T n E hT hl⟩⟩
+
+/-- … in particular an empty list or set decodes into an array only of length 0 (and then stores the empty array) -/
+theorem empty_into_array_iff (S : Sched) (ety : Ty) (T : GoTy) (n : Nat) (E : GoTy) (hT : T.base = .array n E) :
+    ((∃ g, fromCtyS S ⟨.list ety, .seq []⟩ T = .ok g) ↔ n = 0) ∧
+    ((∃ g, fromCtyS S ⟨.set ety, .sset [] []⟩ T = .ok g) ↔ n = 0) ∧
+    (n = 0 → fromCtyS S ⟨.list ety, .seq []⟩ T = .ok (wrapPtr T.depth (.arr [])) ∧
+             fromCtyS S ⟨.set ety, .sset [] []⟩ T = .ok (wrapPtr T.depth (.arr []))) := by
+  have hl := fromCtyP_empty_list_array S ety T n E hT
+  have hs := fromCtyP_empty_set_array S ety T n E hT
+  refine ⟨⟨fun ⟨g, h⟩ => ?_, fun h0 => ⟨_, hl.1 h0⟩⟩, ⟨fun ⟨g, h⟩ => ?_, fun h0 => ⟨_, hs.1 h0⟩⟩, fun h0 => ⟨hl.1 h0, hs.1 h0⟩⟩
+  · by_cases h0 : n = 0
+    · exact h0
+    · obtain ⟨c, hc⟩ := hl.2 h0
+      rw [fromCtyS] at h; rw [hc] at h; cases h
+  · by_cases h0 : n = 0
+    · exact h0
+    · obtain ⟨c, hc⟩ := hs.2 h0
+      rw [fromCtyS] at h; rw [hc] at h; cases h
+
+/-- "nil pointers … correspond to null", inside maps: a map decoded into `map[string]*E` (behind any pointers; `E` not
+`cty.Value`; element type not a list or map, whose null is a nil slice / map behind an allocated pointer) has exactly the
+keys of the cty map, and under the key of every null element a nil pointer — a null element is never a missing key
+(the predicate that caught seeded/C18-map-decode-null-pointer-element-dropped). -/
+theorem map_null_element_is_nil_member (S : Sched) (ety : Ty) (ks : List String) (cs : List Payload) (T : GoTy) (E : GoTy)
+    (hT : T.base = .map (.ptr E)) (hc : E.base.isCval = false) (hn : nullViaPtr ety = true) (g : GoVal)
+    (h : fromCtyS S ⟨.map ety, .smap ks cs⟩ T = .ok g) :
+    ∃ gs, g = wrapPtr T.depth (.map ks gs) ∧ gs.length = cs.length ∧
+      ∀ i : Nat, cs[i]? = some Payload.null → gs[i]? = some (wrapPtr E.depth .nilPtr) :=
+  fromCtyP_map_null_member S ety ks cs T E hT hc hn g h
+
+/-- "big numbers to the corresponding number type … exactly": `ToCtyValue` of a `big.Int` is the number `v` for EVERY
+magnitude — the number made has the integer value `v` and a precision that holds all its bits (`(&big.Float{}).SetInt`
+takes max(64, bit length), so nothing is rounded), at the top level or behind a pointer; and it decodes back into the same
+`big.Int` (the predicate that caught seeded/C18-bigint-newfloat-53-bit-precision). -/
+theorem bigInt_tocty_exact (S : Sched) (norm : String → String) (v : Int) :
+    ∃ x, toCty norm (.bigInt v) .number = .ok ⟨.number, .n x⟩ ∧ toCty norm (.ptr (.bigInt v)) .number = .ok ⟨.number, .n x⟩ ∧
+      IsTheInt x v ∧ normalNum x = true ∧
+      (∃ n m e p, x = .fin n m e p ∧ Num.bitlen v.natAbs ≤ p) ∧
+      fromCtyS S ⟨.number, .n x⟩ .bigInt = .ok (.bigInt v) := by
+  obtain ⟨h1, h2, h3⟩ := toCtyG_bigInt_exact norm true v
+  refine ⟨_, h1, ?_, h2, h3, ⟨_, _, _, _, rfl, bigInt_prec_suffices v⟩, ?_⟩
+  · simp only [toCty, toCtyG]
+  · exact (bigInt_ok_iff S _ h3 0 _).mpr ⟨v, h2, rfl⟩
+
+/-- `fromCtyList` as written in the source is the list case of the model of `fromCtyValue` (null, marks, slice and array
+targets, every other target kind refused), the recursive call being the model -/
+theorem generated_fromCtyList_eq (S : Sched) (ms : List String) (ety : Ty) (p : Payload) (T : GoTy) (tv : GoVal)
+    (hd : T.depth = 0) (hc : T.isCval = false) (hp : p = .null ∨ ∃ cs, p = .seq cs) :
+    GoctyFnsTie.er (Generated.GoctyShapeFns.fromCtyList (D18bTie.recS S) ⟨.list ety, pushMarks ms p⟩ T tv) =
+      GoctyFnsTie.er (fromCtyP S ms (.list ety) p T) :=
+  D18bTie.fromCtyList_tie S ms ety p T tv hd hc hp
+
+/-- `fromCtySet` as written in the source is the set case of the model -/
+theorem generated_fromCtySet_eq (S : Sched) (ms : List String) (ety : Ty) (ids : List Int) (cs : List Payload) (T : GoTy)
+    (tv : GoVal) (hd : T.depth = 0) (hc : T.isCval = false) :
+    GoctyFnsTie.er (Generated.GoctyShapeFns.fromCtySet (D18bTie.recS S) ⟨.set ety, pushMarks ms (.sset ids cs)⟩ T tv) =
+      GoctyFnsTie.er (fromCtyP S ms (.set ety) (.sset ids cs) T) :=
+  D18bTie.fromCtySet_tie S ms ety ids cs T tv hd hc
+
+/-- `fromCtyMap` as written in the source is the map case of the model -/
+theorem generated_fromCtyMap_eq (S : Sched) (ms : List String) (ety : Ty) (p : Payload) (T : GoTy) (tv : GoVal)
+    (hd : T.depth = 0) (hc : T.isCval = false) (hp : p = .null ∨ ∃ ks cs, p = .smap ks cs) :
+    GoctyFnsTie.er (Generated.GoctyShapeFns.fromCtyMap (D18bTie.recS S) ⟨.map ety, pushMarks ms p⟩ T tv) =
+      GoctyFnsTie.er (fromCtyP S ms (.map ety) p T) :=
+  D18bTie.fromCtyMap_tie S ms ety p T tv hd hc hp
+
+/-- `fromCtyTuple` as written in the source — field count, positional loop, `CanSet` — is the tuple case of the model,
+for an unmarked tuple into the zero value of every non-pointer target -/
+theorem generated_fromCtyTuple_eq (S : Sched) (etys : List Ty) (cs : List Payload) (T : GoTy)
+    (hd : T.depth = 0) (hc : T.isCval = false) (hwf : cs.length = etys.length) :
+    GoctyFnsTie.er (Generated.GoctyShapeFns.fromCtyTuple (D18bTie.recS S) ⟨.tuple etys, .seq cs⟩ T (zeroVal T)) =
+      GoctyFnsTie.er (fromCtyP S [] (.tuple etys) (.seq cs) T) :=
+  D18bTie.fromCtyTuple_tie S etys cs T hd hc hwf
+
+/-- `array_length_rule`, about the translated source and for ANY behaviour of the recursive call: in out.go the
+`length != target.Len()` tests of `fromCtyList` and `fromCtySet` come before the element loops, and `fromCtyTuple` compares
+the field count first — a wrong length is refused before a single member is looked at -/
+theorem array_length_rule_generated (rec : GoctyGo.Rec) (ety : Ty) (etys : List Ty) (ids : List Int) (cs : List Payload) (p : Payload)
+    (n : Nat) (E : GoTy) (tags : List String) (tys : List GoTy) (tv : GoVal) :
+    (cs.length ≠ n → (∃ c, Generated.GoctyShapeFns.fromCtyList rec ⟨.list ety, .seq cs⟩ (.array n E) tv = .err c) ∧
+                     (∃ c, Generated.GoctyShapeFns.fromCtySet rec ⟨.set ety, .sset ids cs⟩ (.array n E) tv = .err c)) ∧
+    (tys.length ≠ etys.length → ∃ c, Generated.GoctyShapeFns.fromCtyTuple rec ⟨.tuple etys, p⟩ (.struct tags tys) tv = .err c) :=
+  ⟨fun hl => ⟨D18bTie.fromCtyList_array_len rec ety cs n E tv hl, D18bTie.fromCtySet_array_len rec ety ids cs n E tv hl⟩,
+   fun hl => D18bTie.fromCtyTuple_field_count rec etys p tags tys tv hl⟩
+
+/-- a marked list, set or map panics in the translated source as in the model (`marked_can_panic`), whatever its members -/
+theorem marked_container_panics_generated (rec : GoctyGo.Rec) (ms : List String) (ety : Ty) (cs : List Payload) (ks : List String)
+    (ids : List Int) (E : GoTy) (tv : GoVal) :
+    GoctyFnsTie.er (Generated.GoctyShapeFns.fromCtyList rec ⟨.list ety, .marked ms (.seq cs)⟩ (.slice E) tv) = .panic "" ∧
+    GoctyFnsTie.er (Generated.GoctyShapeFns.fromCtySet rec ⟨.set ety, .marked ms (.sset ids cs)⟩ (.slice E) tv) = .panic "" ∧
+    GoctyFnsTie.er (Generated.GoctyShapeFns.fromCtyMap rec ⟨.map ety, .marked ms (.smap ks cs)⟩ (.map E) tv) = .panic "" :=
+  D18bTie.marked_container_panics rec ms ety cs ks ids E tv
+
+-- the hypotheses are met by non-trivial instances; the statements evaluated
+example (S : Sched) : ∃ c, fromCtyS S ⟨.list .number, .seq []⟩ (.ptr (.array 2 (.int .w8 true))) = .err c :=
+  ((array_length_rule S .number [] [] (.ptr (.array 2 (.int .w8 true))) 2 (.int .w8 true) rfl).2.2 (by decide)).1
+example (S : Sched) : fromCtyS S ⟨.map .string, .smap ["a", "b"] [.null, .s "x"]⟩ (.map (.ptr .str)) =
+    .ok (.map ["a", "b"] [.nilPtr, .ptr (.str "x")]) := by rfl
+example : nullViaPtr .string = true ∧ (GoTy.str).base.isCval = false ∧ (GoTy.map (.ptr .str)).base = .map (.ptr .str) := ⟨rfl, rfl, rfl⟩
+example (S : Sched) : ∃ x, toCty id (.bigInt (2 ^ 200 + 1)) .number = .ok ⟨.number, .n x⟩ ∧ IsTheInt x (2 ^ 200 + 1) :=
+  let ⟨x, h1, _, h2, _⟩ := bigInt_tocty_exact S id (2 ^ 200 + 1); ⟨x, h1, h2⟩
+example (S : Sched) : Generated.GoctyShapeFns.fromCtyList (D18bTie.recS S) ⟨.list .number, .seq [.n (Num.ofInt 1), .n (Num.ofInt 2)]⟩
+    (.array 2 (.int .w8 true)) (zeroVal (.array 2 (.int .w8 true))) = .ok (.arr [.int 1, .int 2]) := by rfl
+example (S : Sched) : Generated.GoctyShapeFns.fromCtyList (D18bTie.recS S) ⟨.list .number, .seq []⟩
+    (.array 2 (.int .w8 true)) (zeroVal (.array 2 (.int .w8 true))) = .err "must be a list of length %d" := by rfl
+example (S : Sched) : Generated.GoctyShapeFns.fromCtyTuple (D18bTie.recS S) ⟨.tuple [.string, .number], .seq [.s "a", .n (Num.ofInt 7)]⟩
+    (.struct ["", ""] [.str, .int .w8 true]) (zeroVal (.struct ["", ""] [.str, .int .w8 true])) =
+    .ok (.struct ["", ""] [.str "a", .int 7]) := by rfl
 
 end C18
 end CtyModel
